@@ -60,6 +60,15 @@ Theorem failed_copy_not_advertised :
 Proof. exact copy_failed_not_advertised. Qed.
 Print Assumptions failed_copy_not_advertised.
 
+(* The order [copy_shard] models - the owner command only after the CopyShard RPC returned
+   without error - is the order of the statements of services/meta/handler.go serveCopyShard
+   (re-read from the Go AST on every run: both calls present, the RPC first, an error return
+   between them).  Adding the owner first and copying afterwards would advertise a replica that a
+   failed copy leaves empty or partial. *)
+Theorem owner_is_added_only_after_the_copy_in_the_source : c18_owner_added_after_copy = true.
+Proof. reflexivity. Qed.
+Print Assumptions owner_is_added_only_after_the_copy_in_the_source.
+
 (* Conversely: whatever faults are injected, if the copy into a fresh destination is
    advertised then the destination shard exists and reads exactly like the source. *)
 Theorem advertised_copy_is_exact :
